@@ -28,7 +28,22 @@ case "$MODE" in
     # a violation in the capacity-3 flavour is reported at once; the shipped-capacity flavour
     # (slower per execution) only runs when the first one is clean
     if [ "$R1" -eq 0 ]; then "$HERE/target/cap64/release/c17" "$MODE"; R2=$?; else R2=0; fi
-    for r in $R1 $R2; do [ "$r" -eq 2 ] && exit 2; [ "$r" -ne 0 ] && RC=1; done
+    LIMIT=0
+    for r in $R1 $R2; do [ "$r" -eq 2 ] && exit 2; [ "$r" -eq 3 ] && LIMIT=1; [ "$r" -eq 1 ] && RC=1; done
+    # sequential request histories against the real (non-shuttle) cache: rqsim, release/std flavour
+    rm -f "$HERE/target/evidence-sequential.json"
+    if [ "$RC" -eq 0 ]; then
+      ( cd "$VERIF_DIR/sim" && cargo build --quiet --release --target-dir "$VERIF_DIR/sim/target/std" ) >"$HERE/target/build-rqsim.log" 2>&1 || {
+        echo "HARNESS-ERROR: build of rqsim failed; see $HERE/target/build-rqsim.log" >&2; tail -n 30 "$HERE/target/build-rqsim.log" >&2; exit 2; }
+      "$VERIF_DIR/sim/target/std/release/rqsim" C17SEQ "$MODE"; R3=$?
+      [ "$R3" -eq 2 ] && exit 2; [ "$R3" -ne 0 ] && RC=1
+    fi
+    if [ "$LIMIT" -eq 1 ]; then
+      # the interleaving part could not be simulated: a violation found by the sequential part is
+      # still reported, otherwise this is a harness error (no claim either way)
+      [ "$RC" -eq 1 ] && exit 1
+      exit 2
+    fi
     python3 "$HERE/merge_evidence.py" "$VERIF_DIR" "$MODE" "$T0" || exit 2
     exit $RC ;;
   *) echo "usage: run.sh quick|thorough|replay <file>" >&2; exit 2 ;;
